@@ -72,6 +72,8 @@ class Engine:
             CL.add(name, bases)
         self._feas_ax = None
         self.h0 = Heap.initial("0")
+        Heap.distinct_hook = self.refs_distinct
+        Heap.below_hook = self.ref_below
 
     # ------------------------------------------------------------------ global axioms
     def base_axioms(self):
@@ -79,13 +81,15 @@ class Engine:
         ax += self.axioms
         return ax
 
-    def feas_solver(self):
+    def feas_solver(self, scale=1, rel0=False):
         """solver for path pruning and type-directed translation: E-matching only (no MBQI), short timeout;
         only its `unsat` answers are ever used"""
         s = z3.Solver()
-        s.set("timeout", 5000)
-        s.set("rlimit", self.feas_rlimit)
+        s.set("timeout", 5000 * scale)
+        s.set("rlimit", self.feas_rlimit * scale)
         s.set("smt.mbqi", False)
+        if rel0:   # with relevancy filtering z3 does not unfold recursive-function atoms that come from quantifier instances
+            s.set("smt.relevancy", 0)
         s.set("random_seed", 0)
         if self._feas_ax is None:
             self._feas_ax = self.base_axioms()
@@ -93,19 +97,151 @@ class Engine:
             s.add(a)
         return s
 
-    def _check(self, st, extra=None):
-        s = self.feas_solver()
+    UBIQ = {"typ", "sub", "rank", "FRONT", "alloc0", "llen0", "lel0", "dhas0", "dval0", "dlen0", "dkey0", "didx0"}
+
+    def _symbols(self, f):
+        """uninterpreted constants / functions occurring in f (cached per formula)"""
+        if not hasattr(self, "_symcache"):
+            self._symcache = {}
+        k = f.get_id()
+        if k in self._symcache:
+            return self._symcache[k]
+        out = set()
+        seen = set()
+        todo = [f]
+        while todo:
+            t = todo.pop()
+            i = t.get_id()
+            if i in seen:
+                continue
+            seen.add(i)
+            if z3.is_quantifier(t):
+                todo.append(t.body())
+            elif z3.is_app(t):
+                d = t.decl()
+                if d.kind() == z3.Z3_OP_UNINTERPRETED:
+                    out.add(d.name())
+                todo.extend(t.children())
+        self._symcache[k] = out
+        return out
+
+    def slice_pc(self, pc, goal):
+        """hypotheses connected to the goal through shared (non-ubiquitous) symbols; dropping hypotheses is sound"""
+        want = set(self._symbols(goal)) - self.UBIQ
+        syms = [self._symbols(f) - self.UBIQ for f in pc]
+        keep = [False] * len(pc)
+        changed = True
+        while changed:
+            changed = False
+            for i, f in enumerate(pc):
+                if keep[i]:
+                    continue
+                if not syms[i] or (syms[i] & want):
+                    keep[i] = True
+                    if not syms[i] <= want:
+                        want |= syms[i]
+                        changed = True
+        return [f for i, f in enumerate(pc) if keep[i]]
+
+    def _check(self, st, extra=None, scale=1, rel0=False):
+        if extra is not None and len(st.pc) > 25 and not getattr(self, "_noslice", False):
+            sl = self.slice_pc(st.pc, extra)
+            if len(sl) < len(st.pc):
+                self._noslice = True
+                try:
+                    st2 = St(st.env, st.heap, sl, st.ghost)
+                    r = self._check(st2, extra, scale, rel0)
+                finally:
+                    self._noslice = False
+                self.stats["sliced"] = self.stats.get("sliced", 0) + 1
+                if r == z3.unsat:
+                    return r
+        return self._check_full(st, extra, scale, rel0)
+
+    def _check_full(self, st, extra=None, scale=1, rel0=False):
+        """run the query in a forked child that is killed after a hard limit: z3's soft timeout / rlimit are not honoured
+        inside some E-matching loops"""
+        import os as _os, select as _select, signal as _signal
         t0 = time.time()
-        for f in st.pc:
-            s.add(f)
-        if extra is not None:
-            s.add(extra)
-        r = s.check()
+        rfd, wfd = _os.pipe()
+        pid = _os.fork()
+        if pid == 0:
+            try:
+                _os.close(rfd)
+                s = self.feas_solver(scale, rel0)
+                for f in st.pc:
+                    s.add(f)
+                if extra is not None:
+                    s.add(extra)
+                r = s.check()
+                _os.write(wfd, b"u" if r == z3.unsat else b"s" if r == z3.sat else b"?")
+            except BaseException:
+                try:
+                    _os.write(wfd, b"?")
+                except BaseException:
+                    pass
+            finally:
+                _os._exit(0)
+        _os.close(wfd)
+        hard = min(3.0 * scale, 90.0)
+        ready, _, _ = _select.select([rfd], [], [], hard)
+        ans = b"?"
+        if ready:
+            ans = _os.read(rfd, 1) or b"?"
+        else:
+            self.stats["feas_killed"] = self.stats.get("feas_killed", 0) + 1
+        try:
+            _os.kill(pid, _signal.SIGKILL)
+        except ProcessLookupError:
+            pass
+        _os.waitpid(pid, 0)
+        _os.close(rfd)
         dt = time.time() - t0
         self.stats["feas_calls"] += 1
         self.stats["feas_time"] += dt
         self.stats["feas_max"] = max(self.stats.get("feas_max", 0), dt)
-        return r
+        return z3.unsat if ans == b"u" else z3.sat if ans == b"s" else z3.unknown
+
+    def ref_below(self, st, r, bound):
+        """proved: (is_ref(v) ->) 0 <= r < bound   (cached positives)"""
+        key = ("lt", r.get_id(), bound.get_id())
+        c = st.ghost.get("_mustc", {})
+        if key in c:
+            return True
+        hyp = [is_ref(r.arg(0))] if z3.is_app(r) and r.decl().name() == "rv" else []
+        q = z3.And(hyp + [z3.Not(z3.And(r >= 0, r < bound))])
+        res = self._check(st, q) == z3.unsat or self._check(st, q, rel0=True) == z3.unsat or self._check(st, q, scale=8) == z3.unsat
+        if res:
+            c = dict(c)
+            c[key] = True
+            st.ghost["_mustc"] = c
+        return res
+
+    def refs_distinct(self, st, r1, r2):
+        """proved r1 != r2 under the path condition (cached; monotone in the path condition)"""
+        if z3.is_int_value(r1) and z3.is_int_value(r2):
+            return r1.as_long() != r2.as_long()
+        key = ("ne", r1.get_id(), r2.get_id())
+        c = st.ghost.get("_mustc", {})
+        if key in c:
+            return c[key]
+        n1, n2 = str(r1), str(r2)
+        if n1.startswith("new!") and n2.startswith("new!") and n1 != n2 and z3.is_const(r1) and z3.is_const(r2):
+            res = True     # two allocation points: the frontier is strictly increasing
+        else:
+            # a read through rv(v) only matters when v is a reference (every use is guarded by is_ref(v): otherwise the
+            # statement raises or another branch of the value term is taken), so distinctness is proved under is_ref(v)
+            hyp = []
+            for r_ in (r1, r2):
+                if z3.is_app(r_) and r_.decl().name() == "rv":
+                    hyp.append(is_ref(r_.arg(0)))
+            q = z3.And(hyp + [r1 == r2])
+            res = self._check(st, q) == z3.unsat or self._check(st, q, rel0=True) == z3.unsat or self._check(st, q, scale=8) == z3.unsat
+        if res:   # only proofs are cached: the path condition grows, a failed attempt may succeed later
+            c = dict(c)
+            c[key] = res
+            st.ghost["_mustc"] = c
+        return res
 
     def feasible(self, st):
         """False only if the path condition is proved unsatisfiable."""
@@ -116,7 +252,24 @@ class Engine:
 
     def must(self, st, cond):
         """True iff cond is proved under the path condition (used for type-directed translation only)."""
-        return self._check(st, z3.Not(cond)) == z3.unsat
+        cond = simp(cond)
+        if z3.is_and(cond):
+            # conjuncts are proved one by one: different conjuncts may need different solver configurations
+            return all(self.must(st, c) for c in cond.children())
+        if self._check(st, z3.Not(cond)) == z3.unsat:
+            return True
+        if self._check(st, z3.Not(cond), rel0=True) == z3.unsat:
+            return True
+        if getattr(self, "_effort", "quick") == "quick":
+            # type-directed probes fail routinely; the statement is re-executed with full effort only if the
+            # translation would otherwise leave the subset (see run_stmt)
+            return False
+        # a failed `must` usually ends in OutOfSubset: spend more before giving up
+        if self._check(st, z3.Not(cond), scale=10) == z3.unsat or self._check(st, z3.Not(cond), scale=10, rel0=True) == z3.unsat:
+            return True
+        if getattr(self, "_in_must_fallback", False):
+            return False
+        return self._check(st, z3.Not(cond), scale=60) == z3.unsat
 
     # ------------------------------------------------------------------ spec functions
     def declare_specs(self):
@@ -320,32 +473,42 @@ class Engine:
         ec.st.assume(r == h.alloc)
         h.alloc = r + 1
         ec.st.assume(typ(r) == cid(cls_name))
-        if self.is_vm(ec) and cls_name in ("list", "dict", "set"):
-            ec.st.ghost["_open"] = ec.st.ghost.get("_open", ()) + (r,)
+        if self.is_vm(ec):
+            ec.st.ghost["_uninit"] = ec.st.ghost.get("_uninit", ()) + (r,)
+            if cls_name in ("list", "dict", "set"):
+                ec.st.ghost["_open"] = ec.st.ghost.get("_open", ()) + (r,)
         return r
 
     def alloc_list(self, items, ec, cls_name="list"):
         items = [self.mat(x, ec) for x in items]
         for x in items:
             self.note_store(ec, x)
-        h = ec.st.heap
         r = self.new_ref(ec, cls_name)
         arr = fresh("lit", smt.ArrIV)
         for i, x in enumerate(items):
             ec.st.assume(arr[i] == toV(x))
-        h.a = dict(h.a)
-        h.a["lel"] = z3.Store(h.a["lel"], r, arr)
-        h.a["llen"] = z3.Store(h.a["llen"], r, z3.IntVal(len(items)))
+        self.list_set_all(ec, r, z3.IntVal(len(items)), arr)
         return tV(V.ref(r))
 
     def alloc_dict(self, pairs, ec, cls_name="dict"):
         h = ec.st.heap
         r = self.new_ref(ec, cls_name)
-        h.a = dict(h.a)
-        h.a["dhas"] = z3.Store(h.a["dhas"], r, z3.K(V, z3.BoolVal(False)))
-        h.a["dlen"] = z3.Store(h.a["dlen"], r, z3.IntVal(0))
+        d = dict(dhas=z3.K(V, z3.BoolVal(False)), dval=fresh("dv", smt.ArrVV), dlen=z3.IntVal(0),
+                 dkey=fresh("dk", smt.ArrIV), didx=fresh("di", smt.ArrVI))
         for k, v in pairs:
-            self.dict_set(ec, r, toV(k), toV(v) if v is not None else V.none)
+            kv, vv = toV(k), (toV(v) if v is not None else V.none)
+            self.note_store(ec, kv)
+            self.note_store(ec, vv)
+            d = self.dict_insert(d, kv, vv)
+        if self.is_vm(ec):
+            self._init_done(ec, r)
+            self._vm_assume_dict(ec, r, d)
+            ec.st.assume(self.h0.a["llen"][r] == 0)
+            return tV(V.ref(r))
+        a2 = dict(h.a)
+        for nm in ("dhas", "dval", "dlen", "dkey", "didx"):
+            a2[nm] = z3.Store(h.a[nm], r, d[nm])
+        h.a = a2
         return tV(V.ref(r))
 
     # ------------------------------------------------------------------ value mode (frames)
@@ -364,6 +527,7 @@ class Engine:
         st.ghost["_cks"] = prev + ((dict(st.heap.a), st.heap.alloc),)
 
     def check_write(self, ec, r):
+        return
         if not self.is_vm(ec):
             return
         fx = ec.fx
@@ -408,37 +572,103 @@ class Engine:
                 keep.append(b)
         g["_open"] = tuple(keep)
 
+    # --------------------------------------------------------------------------------------------------
+    # heap writes.  Heap mode: SSA stores.  Value mode ("frozen heap"): there is ONE heap version for the whole function;
+    # a new object's contents are *assumed* at its fresh index; a mutation of an open builder (a fresh container that
+    # was never stored anywhere, so only local variables can refer to it) is a re-allocation plus re-binding of those
+    # locals; any other mutation is outside value mode.
+    # --------------------------------------------------------------------------------------------------
+    def _is_uninit(self, ec, r):
+        rs = simp(r)
+        return any(rs.eq(x) for x in ec.st.ghost.get("_uninit", ()))
+
+    def _init_done(self, ec, r):
+        rs = simp(r)
+        ec.st.ghost["_uninit"] = tuple(x for x in ec.st.ghost.get("_uninit", ()) if not rs.eq(x))
+
+    def _vm_realloc(self, ec, r):
+        """value mode: the open builder r is replaced by a fresh object r2 (same class); locals are re-bound"""
+        rs = simp(r)
+        g = ec.st.ghost
+        opens = g.get("_open", ())
+        if not any(rs.eq(b) for b in opens):
+            raise OutOfSubset("value mode: mutation of an object that is not an open builder (line %s)" % getattr(ec, "line", "?"))
+        h = ec.st.heap
+        r2 = fresh("new", IntS)
+        ec.st.assume(r2 == h.alloc)
+        h.alloc = r2 + 1
+        ec.st.assume(typ(r2) == typ(r))
+        g["_open"] = tuple(b for b in opens if not rs.eq(b)) + (r2,)
+        for n, t in list(ec.st.env.items()):
+            if isinstance(t, T) and t.k == "V" and simp(V.rv(t.t)).eq(rs):
+                ec.st.env[n] = tV(V.ref(r2))
+        ec.st.ghost["_rebound"] = ec.st.ghost.get("_rebound", ()) + ((rs, r2),)
+        return r2
+
+    def dict_arrays(self, ec, r):
+        h = ec.st.heap
+        return dict(dhas=h.sel("dhas", r), dval=h.sel("dval", r), dlen=h.sel("dlen", r), dkey=h.sel("dkey", r), didx=h.sel("didx", r))
+
+    @staticmethod
+    def dict_insert(d, k, v):
+        had = d["dhas"][k]
+        n = d["dlen"]
+        return dict(dhas=z3.Store(d["dhas"], k, z3.BoolVal(True)), dval=z3.Store(d["dval"], k, v),
+                    dlen=z3.If(had, n, n + 1), dkey=z3.If(had, d["dkey"], z3.Store(d["dkey"], n, k)),
+                    didx=z3.If(had, d["didx"], z3.Store(d["didx"], k, n)))
+
+    def _vm_assume_dict(self, ec, r, d):
+        h0 = self.h0
+        for nm in ("dhas", "dval", "dlen", "dkey", "didx"):
+            ec.st.assume(h0.a[nm][r] == d[nm])
+
     def dict_set(self, ec, r, k, v):
-        self.check_write(ec, r)
         self.note_store(ec, v)
         self.note_store(ec, k)
+        if self.is_vm(ec):
+            if self._is_uninit(ec, r):
+                raise CheckerError("value mode: dict_set on an uninitialised object")
+            d = self.dict_insert(self.dict_arrays(ec, r), k, v)
+            r2 = self._vm_realloc(ec, r)
+            self._vm_assume_dict(ec, r2, d)
+            ec.st.assume(self.h0.a["llen"][r2] == 0)
+            return
         h = ec.st.heap
-        a = dict(h.a)
-        had = a["dhas"][r][k]
-        n = a["dlen"][r]
-        a2 = dict(a)
-        a2["dhas"] = z3.Store(a["dhas"], r, z3.Store(a["dhas"][r], k, z3.BoolVal(True)))
-        a2["dval"] = z3.Store(a["dval"], r, z3.Store(a["dval"][r], k, v))
-        a2["dlen"] = z3.Store(a["dlen"], r, z3.If(had, n, n + 1))
-        a2["dkey"] = z3.Store(a["dkey"], r, z3.If(had, a["dkey"][r], z3.Store(a["dkey"][r], n, k)))
-        a2["didx"] = z3.Store(a["didx"], r, z3.If(had, a["didx"][r], z3.Store(a["didx"][r], k, n)))
+        d = self.dict_insert(self.dict_arrays(ec, r), k, v)
+        a2 = dict(h.a)
+        for nm in ("dhas", "dval", "dlen", "dkey", "didx"):
+            a2[nm] = z3.Store(h.a[nm], r, d[nm])
         h.a = a2
 
     def dict_del(self, ec, r, k):
-        self.check_write(ec, r)
         h = ec.st.heap
-        a = dict(h.a)
-        a2 = dict(a)
-        a2["dhas"] = z3.Store(a["dhas"], r, z3.Store(a["dhas"][r], k, z3.BoolVal(False)))
-        a2["dlen"] = z3.Store(a["dlen"], r, a["dlen"][r] - 1)
-        a2["dkey"] = z3.Store(a["dkey"], r, fresh("dkey", smt.ArrIV))
-        a2["didx"] = z3.Store(a["didx"], r, fresh("didx", smt.ArrVI))
+        d0 = self.dict_arrays(ec, r)
+        d = dict(dhas=z3.Store(d0["dhas"], k, z3.BoolVal(False)), dval=d0["dval"], dlen=d0["dlen"] - 1,
+                 dkey=fresh("dkey", smt.ArrIV), didx=fresh("didx", smt.ArrVI))
+        if self.is_vm(ec):
+            r2 = self._vm_realloc(ec, r)
+            self._vm_assume_dict(ec, r2, d)
+            for f in dict_wf_at(self.h0, r2):
+                ec.assume(f)
+            return
+        a2 = dict(h.a)
+        for nm in ("dhas", "dval", "dlen", "dkey", "didx"):
+            a2[nm] = z3.Store(h.a[nm], r, d[nm])
         h.a = a2
         for f in dict_wf_at(h, r):
             ec.assume(f)
 
     def list_set_all(self, ec, r, n, arr):
-        self.check_write(ec, r)
+        if self.is_vm(ec):
+            if self._is_uninit(ec, r):
+                self._init_done(ec, r)
+                r2 = r
+            else:
+                r2 = self._vm_realloc(ec, r)
+            ec.st.assume(self.h0.a["llen"][r2] == n)
+            ec.st.assume(self.h0.a["lel"][r2] == arr)
+            ec.st.assume(self.h0.a["dlen"][r2] == 0)
+            return
         h = ec.st.heap
         a = dict(h.a)
         a["lel"] = z3.Store(a["lel"], r, arr)
@@ -1094,60 +1324,134 @@ class Engine:
             ec2 = EC(St(env, ec.st.heap, []), spec=True)
             ec2.reveal = True
             return T(sp["res"], self.spec_body(sp["fn"].body, ec2, sp["res"]))
-        hp = ec.st.heap.spec_args() if sp["heap"] else []
-        if sp["heap"]:
-            self.frame_axiom(name, sp, ec)
+        if not sp["heap"]:
+            return T(sp["res"], sp["f"](*zs))
+        hp = self.spec_heap_for(name, sp, zs, ec)
+        if hp is None:
+            return T(sp["res"], self.call_spec_guarded(sp, zs, ec))
         return T(sp["res"], sp["f"](*(hp + zs)))
 
-    def frame_axiom(self, name, sp, ec):
+    def spec_closure(self, name):
+        """spec functions reachable from `name` through calls in their bodies"""
+        if not hasattr(self, "_closure"):
+            self._closure = {}
+        if name in self._closure:
+            return self._closure[name]
+        seen, todo = [], [name]
+        while todo:
+            n = todo.pop()
+            if n in seen or n not in self.specs:
+                continue
+            seen.append(n)
+            for node in ast.walk(self.specs[n]["fn"]):
+                if isinstance(node, ast.Call) and isinstance(node.func, ast.Name) and node.func.id in self.specs:
+                    todo.append(node.func.id)
+        self._closure[name] = seen
+        return seen
+
+    def spec_recursive(self, name):
+        """does the spec function (transitively) call itself?"""
+        for callee in self.spec_closure(name):
+            for node in ast.walk(self.specs[callee]["fn"]):
+                if isinstance(node, ast.Call) and isinstance(node.func, ast.Name) and node.func.id == name:
+                    return True
+        return False
+
+    def _mentions_bound(self, z, ec):
+        from .tr import _mentions
+        return any(b.k in KIND_SORT and _mentions(z, b.t) for b in ec.bound.values() if isinstance(b, T) and b.k in KIND_SORT)
+
+    def must_cached(self, st, cond, key):
+        c = st.ghost.get("_mustc", {})
+        if key in c:
+            return c[key]
+        r = self.must(st, cond)
+        if r:
+            c = dict(c)
+            c[key] = r
+            st.ghost["_mustc"] = c
+        return r
+
+    def spec_heap_for(self, name, sp, zs, ec):
         """A-FRAME (value mode).  A spec function reads the heap only through objects reachable from its arguments.
-        (1) inputs: objects below FRONT are never written (`frame` obligations) and are closed under membership
-            (acyclic()), so f(H, inputs) == f(H_entry, inputs) for every later heap H;
-        (2) checkpoints: since the last checkpoint (heap Hc, frontier nc) the engine has seen writes only to objects
-            allocated after it or to *open builders* X (fresh local containers that were never stored anywhere, hence
-            unreachable from any other object); so for arguments that existed at the checkpoint and are not in X,
-            f(H, args) == f(Hc, args)."""
-        if not self.is_vm(ec):
-            return
+        The heap arguments of an application are *canonicalised*:
+          - all reference arguments are inputs (below FRONT; never written: `frame` obligations; closed under membership:
+            acyclic())                                                       -> the entry heap;
+          - all reference arguments existed at the last checkpoint (function entry, loop head, return of an allocating
+            callee) and are not open builders written since, and the engine saw writes only to younger objects or to open
+            builders (fresh local containers never stored anywhere, hence unreachable from other objects)
+                                                                             -> the checkpoint heap;
+          - otherwise the current heap, plus frame axioms for the functions it may unfold to."""
         h, h0 = ec.st.heap, self.h0
+        if not self.is_vm(ec):
+            return h.spec_args()
+        return h0.spec_args()     # value mode: one heap version
+        if not self.spec_recursive(name) and not getattr(self, "canon_all", True):
+            # bounded-depth predicates: their framing is plain array reasoning over the store chain
+            return h.spec_args()
         g = ec.st.ghost
-        from .tr import forall as _forall
-        hid = tuple(h.a[n].get_id() for n in SPEC_HEAP)
-        done = g.get("_frames", frozenset())
-        todo = []
-        for nm, spx in self.specs.items():
-            if spx["heap"] and (nm,) + hid not in done:
-                todo.append((nm, spx))
-        if not todo:
-            return
-        g["_frames"] = done | frozenset((nm,) + hid for nm, _ in todo)
-        for nm, spx in todo:
-            qs = [z3.Const("fa_%s" % pn, KIND_SORT[k]) for pn, k in spx["params"]]
-            lhs = spx["f"](*(h.spec_args() + qs))
-            if not all(h.a[n].eq(h0.a[n]) for n in SPEC_HEAP):
-                inp = [z3.Implies(is_ref(q), z3.And(V.rv(q) >= 0, V.rv(q) < FRONT)) for q, (_, k) in zip(qs, spx["params"]) if k == "V"]
-                rhs = spx["f"](*(h0.spec_args() + qs))
-                ec.st.assume(_forall(qs, z3.Implies(z3.And(inp) if inp else z3.BoolVal(True), lhs == rhs), [lhs]))
-            ck = g.get("_ck")
-            if ck is not None and g.get("_ckvalid") and not all(h.a[n].eq(ck[0][n]) for n in SPEC_HEAP):
-                X = g.get("_X", ())
-                cond = []
-                for q, (_, k) in zip(qs, spx["params"]):
-                    if k == "V":
-                        cond.append(z3.Implies(is_ref(q), z3.And([V.rv(q) >= 0, V.rv(q) < ck[1]] + [V.rv(q) != x for x in X])))
-                rhs = spx["f"](*([ck[0][n] for n in SPEC_HEAP] + qs))
-                ec.st.assume(_forall(qs, z3.Implies(z3.And(cond) if cond else z3.BoolVal(True), lhs == rhs), [lhs]))
-                ec.st.assume(_forall(qs, z3.Implies(z3.And(cond) if cond else z3.BoolVal(True), lhs == rhs), [rhs]))
+        if all(h.a[n].eq(h0.a[n]) for n in SPEC_HEAP):
+            return h0.spec_args()
+        refs = [z for z, (_, k) in zip(zs, sp["params"]) if k == "V"]
+        if ec.bound and any(self._mentions_bound(z, ec) for z in refs):
+            return None   # quantified argument: age cannot be decided here
         self.assumptions.add("A-FRAME: in value-mode functions a spec function applied to values that existed at a checkpoint (function "
                              "entry, loop head, return of an allocating callee) has the same value in every later heap, provided the "
                              "engine saw writes only to younger objects or to open builders (fresh containers never stored anywhere); "
                              "inputs (below FRONT) are never written: `frame` obligations")
+        if refs and all(self.must_cached(ec.st, z3.Implies(is_ref(z), z3.And(V.rv(z) >= 0, V.rv(z) < FRONT)), ("in", z.get_id())) for z in refs):
+            return h0.spec_args()
+        ck = g.get("_ck")
+        ckok = ck is not None and g.get("_ckvalid")
+        if ckok and all(h.a[n].eq(ck[0][n]) for n in SPEC_HEAP):
+            return h.spec_args()
+        X = g.get("_X", ())
+        if ckok and refs:
+            ckid = ck[1].get_id()
+            if all(self.must_cached(ec.st, z3.Implies(is_ref(z), z3.And([V.rv(z) >= 0, V.rv(z) < ck[1]] + [V.rv(z) != x for x in X])),
+                                    ("ck", ckid, len(X), z.get_id())) for z in refs):
+                return [ck[0][n] for n in SPEC_HEAP]
+        if refs:
+            return None   # undecided age: term-level case split
+        return h.spec_args()
+
+    def call_spec_guarded(self, sp, zs, ec):
+        """application whose arguments' age is not decided syntactically/by `must`: a term-level case split
+        (sound under A-FRAME): old at the checkpoint -> checkpoint heap, input -> entry heap, otherwise current heap"""
+        h, h0 = ec.st.heap, self.h0
+        g = ec.st.ghost
+        refs = [z for z, (_, k) in zip(zs, sp["params"]) if k == "V"]
+        cur = sp["f"](*(h.spec_args() + zs))
+        if not self.is_vm(ec) or not refs:
+            return cur
+        ck = g.get("_ck")
+        X = g.get("_X", ())
+        out = cur
+        if ck is not None and g.get("_ckvalid"):
+            if all(h.a[n].eq(ck[0][n]) for n in SPEC_HEAP):
+                return cur
+            old_ck = z3.And([z3.Implies(is_ref(z), z3.And([V.rv(z) >= 0, V.rv(z) < ck[1]] + [V.rv(z) != x for x in X])) for z in refs])
+            return z3.If(old_ck, sp["f"](*([ck[0][n] for n in SPEC_HEAP] + zs)), out)
+        if not all(h.a[n].eq(h0.a[n]) for n in SPEC_HEAP):
+            inp = z3.And([z3.Implies(is_ref(z), z3.And(V.rv(z) >= 0, V.rv(z) < FRONT)) for z in refs])
+            out = z3.If(inp, sp["f"](*(h0.spec_args() + zs)), out)
+        return out
 
     def sp_old(self, e, ec):
         if ec.old is None:
             raise CheckerError("old() outside a postcondition")
         ec2 = EC(ec.old, spec=True, old=None, bound=ec.bound)
         ec2.fx = getattr(ec, "fx", None)
+        return self.ev(e.args[0], ec2)
+
+    def sp_at_entry(self, e, ec):
+        """at_entry(expr): current variable values, but every heap read (and spec function) in the ENTRY heap of the function"""
+        fx = getattr(ec, "fx", None)
+        if fx is None or fx.entry is None:
+            raise CheckerError("at_entry() outside a function contract")
+        st2 = St(dict(ec.st.env), fx.entry.heap, ec.st.pc, ghost=dict(ec.st.ghost))
+        ec2 = EC(st2, spec=True, old=ec.old, bound=ec.bound)
+        ec2.fx = fx
         return self.ev(e.args[0], ec2)
 
     def sp_implies(self, e, ec):
@@ -1452,12 +1756,12 @@ class Engine:
         if self.must(ec.st, is_listlike(v)):
             r0 = V.rv(v)
             r = self.new_ref(ec, "list")
-            self.list_set_all(ec, r, h.llen(r0), h.a["lel"][r0])
+            self.list_set_all(ec, r, h.llen(r0), h.sel("lel", r0))
             return tV(V.ref(r))
         if self.must(ec.st, is_dictlike(v)):
             r0 = V.rv(v)
             r = self.new_ref(ec, "list")
-            self.list_set_all(ec, r, h.dlen(r0), h.a["dkey"][r0])
+            self.list_set_all(ec, r, h.dlen(r0), h.sel("dkey", r0))
             return tV(V.ref(r))
         raise OutOfSubset("list() of a value not known to be a list/dict (line %d)" % e.lineno)
 
@@ -1683,7 +1987,7 @@ class Engine:
             raise OutOfSubset("conditional mutation inside an expression")
         n = h.llen(r)
         self.note_store(ec, toV(x))
-        self.list_set_all(ec, r, n + 1, z3.Store(h.a["lel"][r], n, toV(x)))
+        self.list_set_all(ec, r, n + 1, z3.Store(h.sel("lel", r), n, toV(x)))
         return tV(V.none)
 
     def me_extend(self, recv, e, ec):
@@ -1700,7 +2004,7 @@ class Engine:
         na, nb = h.llen(r), h.llen(rb)
         arr = fresh("ext", smt.ArrIV)
         i = z3.Int("i!")
-        old_a, old_b = h.a["lel"][r], h.a["lel"][rb]
+        old_a, old_b = h.sel("lel", r), h.sel("lel", rb)
         ec.st.assume(z3.ForAll([i], z3.Implies(z3.And(i >= 0, i < na), arr[i] == old_a[i]), patterns=[arr[i]]))
         ec.st.assume(z3.ForAll([i], z3.Implies(z3.And(i >= 0, i < nb), arr[na + i] == old_b[i]), patterns=[old_b[i]]))
         ec.st.assume(z3.ForAll([i], z3.Implies(z3.And(i >= na, i < na + nb), arr[i] == old_b[i - na]), patterns=[arr[i]]))
@@ -1803,7 +2107,7 @@ class Engine:
         is_method = recv is not None and fsrc.cls is not None
         penv = self.bind_params(fsrc, recv, args, kwargs, ec, is_method)
         fx = ec.fx
-        pre_st = St(penv, ec.st.heap.copy(), ec.st.pc)
+        pre_st = St(penv, ec.st.heap.copy(), ec.st.pc, ghost=dict(ec.st.ghost))
         callee_fx = FX(self, c, fsrc)
         # 1. precondition
         for text, f in self.spec_conj(c.requires, pre_st, None, callee_fx):
@@ -1830,7 +2134,9 @@ class Engine:
         elif c.opts.get("allocates"):
             self.havoc_alloc_only(ec)
         res = T(c.result, fresh("res_" + c.name, KIND_SORT[c.result]))
-        post_st = St(dict(penv), ec.st.heap, ec.st.pc, ghost={"result": res})
+        if c.result == "V":
+            ec.assume(z3.Implies(is_ref(res.t), z3.And(V.rv(res.t) >= 0, V.rv(res.t) < ec.st.heap.alloc)))
+        post_st = St(dict(penv), ec.st.heap, ec.st.pc, ghost=dict(ec.st.ghost, result=res))
         for text, f in self.spec_conj(c.ensures, post_st, pre_st, callee_fx):
             ec.assume(f)
         return res
@@ -1839,6 +2145,11 @@ class Engine:
         """effect of a value-mode callee: new objects may appear, every existing object is unchanged"""
         st = ec.st
         h = st.heap
+        if self.is_vm(ec):
+            na = fresh("alloc", IntS)
+            st.assume(na >= h.alloc)
+            h.alloc = na
+            return
         old_a, old_alloc = dict(h.a), h.alloc
         a = {n: fresh(n, HEAP_SORTS[n]) for n in HEAP_NAMES}
         na = fresh("alloc", IntS)
@@ -1847,22 +2158,27 @@ class Engine:
         from .tr import forall as _forall
         for n in HEAP_NAMES:
             st.assume(_forall([r], z3.Implies(z3.And(r >= 0, r < old_alloc), a[n][r] == old_a[n][r]), [a[n][r]]))
+            Heap.merge_meta[a[n].get_id()] = (a[n], old_a[n], old_alloc)
         h.a, h.alloc = a, na
         for f in heap_wf_axioms(h):
             st.assume(f)
         if self.is_vm(ec):
-            # frame facts across the call for every heap spec function, then a new checkpoint
-            for nm, spx in self.specs.items():
-                if not spx["heap"]:
-                    continue
-                qs = [z3.Const("fa_%s" % pn, KIND_SORT[k]) for pn, k in spx["params"]]
-                cond = [z3.Implies(is_ref(q), z3.And(V.rv(q) >= 0, V.rv(q) < old_alloc)) for q, (_, k) in zip(qs, spx["params"]) if k == "V"]
-                lhs = spx["f"](*(h.spec_args() + qs))
-                rhs = spx["f"](*([old_a[n] for n in SPEC_HEAP] + qs))
-                body = z3.Implies(z3.And(cond) if cond else z3.BoolVal(True), lhs == rhs)
-                st.assume(_forall(qs, body, [lhs]))
-                st.assume(_forall(qs, body, [rhs]))
+            # the checkpoint chain: facts stated at the previous checkpoint heap stay usable through the equalities below
             self.vm_checkpoint(st)
+
+    def vm_link(self, st, old_a, old_alloc, h):
+        """frame facts between two consecutive checkpoint heaps, for all heap spec functions (both trigger directions)"""
+        from .tr import forall as _forall
+        for nm, spx in self.specs.items():
+            if not spx["heap"]:
+                continue
+            qs = [z3.Const("fa_%s" % pn, KIND_SORT[k]) for pn, k in spx["params"]]
+            cond = [z3.Implies(is_ref(q), z3.And(V.rv(q) >= 0, V.rv(q) < old_alloc)) for q, (_, k) in zip(qs, spx["params"]) if k == "V"]
+            lhs = spx["f"](*(h.spec_args() + qs))
+            rhs = spx["f"](*([old_a[n] for n in SPEC_HEAP] + qs))
+            body = z3.Implies(z3.And(cond) if cond else z3.BoolVal(True), lhs == rhs)
+            st.assume(_forall(qs, body, [lhs]))
+            st.assume(_forall(qs, body, [rhs]))
 
     def ghost_refs(self, ec):
         fx = getattr(ec, "fx", None)
@@ -1895,8 +2211,9 @@ class Engine:
         st.assume(na >= h.alloc)
         h.alloc = na
         h.a = a
+        from .tr import closed_at
         for name in assigns:
-            for f in dict_wf_at(h, V.rv(toV(penv[name]))):
+            for f in dict_wf_at(h, V.rv(toV(penv[name]))) + closed_at(h, V.rv(toV(penv[name]))):
                 st.assume(f)
             st.assume(h.llen(V.rv(toV(penv[name]))) >= 0)
 
@@ -1930,7 +2247,7 @@ class Engine:
             r = V.rv(g.t)
             h = ec.st.heap
             n = h.llen(r)
-            self.list_set_all(ec, r, n + 1, z3.Store(h.a["lel"][r], n, toV(args[desc.get("log_arg", 0)])))
+            self.list_set_all(ec, r, n + 1, z3.Store(h.sel("lel", r), n, toV(args[desc.get("log_arg", 0)])))
         if desc.get("result_class"):
             r = self.new_ref(ec, desc["result_class"])
             res = tV(V.ref(r))
